@@ -3,8 +3,8 @@ import pipeline
 
 C01_GEN = {
     "quick": {"VERIF_GEN_A": 2, "VERIF_GEN_H": 1, "VERIF_GEN_F": 1, "VERIF_GEN_E": 2,
-              "VERIF_GEN_RANDOM": 1500, "VERIF_GEN_RANDLEN": 4},
-    "quick_drv": ["-max", "6000"],
+              "VERIF_GEN_RANDOM": 3000, "VERIF_GEN_RANDLEN": 4},
+    "quick_drv": ["-max", "8000"],
     "thorough": {"VERIF_GEN_A": 2, "VERIF_GEN_H": 1, "VERIF_GEN_F": 1, "VERIF_GEN_E": 2,
                  "VERIF_GEN_RANDOM": 40000, "VERIF_GEN_RANDLEN": 6},
     "thorough_drv": [],
@@ -105,10 +105,14 @@ CHECKS = {
 for _pid, _mod in {
     "C05": "c05",
     "C07": "c07",
+    "C09": "c09",
     "C10": "c10",
     "C11": "c11",
     "C13": "c13",
     "C14": "c14",
+    "C15": "c15",
+    "C16": "c16",
+    "C17": "c17",
 }.items():
     CHECKS[_pid] = _lazy(_mod)
 
